@@ -277,6 +277,49 @@ def ob_dependency_cache(nsteps):
     return h
 
 
+def ob_dependency_cache_machines():
+    """the real coredata.CoreData() for a native and for a cross build: the dependency cache of EACH machine is keyed by that machine's own search path
+    (host: pkg_config_path / cmake_prefix_path; build machine: build.pkg_config_path / ...): after the path of one machine changes, lookups for it miss (a
+    fresh directory would search the new path) while the other machine's cache is untouched; in a native build both machines share one cache"""
+    def h():
+        import argparse, tempfile, shutil
+        from mesonbuild import coredata
+        from mesonbuild.mesonlib import MachineChoice
+        tmp = tempfile.mkdtemp(prefix='c06cd')
+        try:
+            cross = choose(2, 'cross build') == 1
+            cf = []
+            if cross:
+                p = os.path.join(tmp, 'cross.ini')
+                with open(p, 'w') as f: f.write("[host_machine]\nsystem = 'linux'\ncpu_family = 'arm'\ncpu = 'arm'\nendian = 'little'\n")
+                cf = [p]
+            cd = coredata.CoreData(argparse.Namespace(cross_file=cf, native_file=[]), tmp, ['meson'])
+            kind = ['pkgconfig', 'cmake'][choose(2, 'dependency type')]
+            opt = {'pkgconfig': 'pkg_config_path', 'cmake': 'cmake_prefix_path'}[kind]
+            key = ('dep',)
+            cd.deps.host.put(key, FakeDep(kind, 'H'))
+            cd.deps.build.put(key, FakeDep(kind, 'B'))
+            if not cross:
+                check(cd.deps.host is cd.deps.build, 'native build: one cache for both machines')
+            which = [MachineChoice.HOST, MachineChoice.BUILD][choose(2, 'machine whose search path changes')] if cross else MachineChoice.HOST      # a native build has no separate build-machine options
+            cd.optstore.set_option(M.O.OptionKey(opt, machine=which), ['/new'])
+            h_ = cd.deps.host.get(key); b_ = cd.deps.build.get(key)
+            if cross:
+                if which is MachineChoice.HOST:
+                    check(h_ is None, 'cross: a new host search path invalidates what the host cache remembered')
+                    check(b_ is not None and b_.ident == 'B', 'cross: ... and leaves the build-machine cache alone')
+                else:
+                    check(b_ is None, 'cross: a new build-machine search path invalidates the build-machine cache')
+                    check(h_ is not None and h_.ident == 'H', 'cross: ... and leaves the host cache alone')
+            else:
+                if which is MachineChoice.HOST:
+                    check(h_ is None and b_ is None, 'native: the (single) search path changed: nothing remembered is used')
+            cover('cross' if cross else 'native')
+        finally:
+            shutil.rmtree(tmp, ignore_errors=True)
+    return h
+
+
 def obligations(tier):
     return [Obligation('replace-if-different', ob_replace(), dict(old='absent | 0-2 chars over a b newline', new='0-2 chars'), labels=('kept', 'replaced')),
             Obligation('buildoptions-order', ob_buildoptions(), dict(options='b_lto b_ndebug b_pie, symbolic values', insertion_order='every permutation'), labels=('done',)),
@@ -284,4 +327,5 @@ def obligations(tier):
             Obligation('optionkey-order', ob_optionkey_order(), dict(keys='2: name 1 char over abc, subproject None | "" | a | b, machine host | build'), labels=('done',)),
             Obligation('env-hash-order', ob_env_hash(), dict(variables='2 set + 2 unset, distinct symbolic names', order='every permutation'), labels=('done',)),
             Obligation('unique-list', ob_ordered(), dict(elements='1-4 symbolic'), labels=('done',)),
+            Obligation('dependency-cache-machines', ob_dependency_cache_machines(), dict(real='coredata.CoreData.__init__, DependencyCache, OptionStore.set_option', build='native | cross', dependency_type='pkgconfig | cmake', changed_path='host | build machine'), labels=('native', 'cross')),
             Obligation('dependency-cache-history', ob_dependency_cache(3 if tier == 'quick' else 4), dict(steps=3 if tier == 'quick' else 4, operations='put (3 dependency types) | get | set pkg_config_path | set cmake_prefix_path', keys=2, paths='[] /A /B', persistence='optional pickle round trip before every step'), labels=('done',), max_paths=3000000)]
